@@ -660,4 +660,112 @@ theorem C08_right_socket_kept (c : NetCfg) (hc : c.WF) (ls : List NLbl) (f : Nat
     simp [(hr.deliver_open hf hu).2]
   · rw [udpMove_udp? _ name dst dst u hu]; simp [hne]
 
+/-! ## 10. Non-vacuity: a concrete history -/
+
+namespace C08Ex
+def cfg : NetCfg := { nodes := [("A", ["10.0.0.1"]), ("B", ["10.0.0.2"])], routeIn := [("*", ["qin"])],
+                      routeOut := [("*", ["qout"])] }
+theorem cfg_wf : cfg.WF := by
+  intro node
+  unfold NetCfg.ipsOf cfg
+  simp only [List.lookup_cons, List.lookup_nil]
+  repeat' split
+  all_goals decide
+
+def epA : Ep := { addr := "10.0.0.1", port := 4000 }
+def epB : Ep := { addr := "10.0.0.2", port := 5000 }
+def pre1 : List NLbl := [.uNew "a" "A", .uNew "b" "B", .uOpen "a" true, .uOpen "b" true]
+def s4 : NS := (NS.init cfg).run pre1
+def s6 : NS := { s4 with n := (s4.n.bindOk "b" epB).bindOk "a" epA }
+
+theorem s6_eq : (NS.init cfg).run (pre1 ++ [.uBind "b" epB, .uBind "a" epA]) = s6 := by
+  rw [NS.run_append]
+  show ({ ({ s4 with n := (s4.n.udpBind "b" epB).1 } : NS) with
+          n := (({ s4 with n := (s4.n.udpBind "b" epB).1 } : NS).n.udpBind "a" epA).1 } : NS) = s6
+  have e1 : s4.n.udpBind "b" epB = (s4.n.bindOk "b" epB, .ok) :=
+    udpBind_explicit s4.n "b" epB { node := "B", isOpen := true, fwd := some 1 } rfl rfl
+      (by rw [Ep.isV4_eq]; decide) (by decide) rfl (by decide) (by decide)
+  rw [e1]
+  have e2 : (s4.n.bindOk "b" epB).udpBind "a" epA = ((s4.n.bindOk "b" epB).bindOk "a" epA, .ok) :=
+    udpBind_explicit _ "a" epA { node := "A", isOpen := true, fwd := some 0 } rfl rfl
+      (by rw [Ep.isV4_eq]; decide) (by decide) rfl (by decide) (by decide)
+  show ({ s4 with n := ((s4.n.bindOk "b" epB).udpBind "a" epA).1 } : NS) = s6
+  rw [e2]
+  rfl
+
+def pk (i : Nat) (payload : List UInt8) : Pkt :=
+  { id := i, len := payload.length, ovh := 28, src := "10.0.0.1:4000", payload := payload }
+
+/-- `b` parks a 2-byte receive; `a` sends 5 bytes to `b`; three datagrams arrive at `b`'s
+    forwarder (the first goes straight to the parked receive, truncated); `b` reads one, closes
+    with one unread; a late datagram arrives at the cut forwarder; `b` re-opens (new forwarder
+    2); one more late datagram at the old forwarder, one at the new. -/
+def post : List NLbl :=
+  [.uRecv "b" { h := 9, caps := [2], withEp := true }, .uSendTo 0 "a" epB [1, 2, 3, 4, 5],
+   .deliver 1 (pk 1 [1, 2, 3, 4, 5]), .deliver 1 (pk 2 [6, 7]), .deliver 1 (pk 3 [8]),
+   .uRecvNb "b" [100], .uClose "b", .deliver 1 (pk 4 [9]), .uOpen "b" true,
+   .deliver 1 (pk 5 [10]), .deliver 2 (pk 6 [11, 12])]
+
+def hist : List NLbl := pre1 ++ [.uBind "b" epB, .uBind "a" epA] ++ post
+
+theorem hist_eq : (NS.init cfg).run hist = s6.run post := by
+  unfold hist; rw [NS.run_append, s6_eq]
+
+theorem hist_take_eq (k : Nat) : (NS.init cfg).run (pre1 ++ [.uBind "b" epB, .uBind "a" epA] ++ post.take k)
+    = s6.run (post.take k) := by
+  rw [NS.run_append, s6_eq]
+
+/-- the logs of `b` at the end: accepted 1, 2, 3 (before the close) and 6 (after the re-open);
+    1 and 2 handed to the reader, 3 discarded by the close, 6 still queued; 4 and 5 (late, at
+    the cut forwarder) never accepted. -/
+example : ((s6.run post).acc "b").map (·.id) = [1, 2, 3, 6]
+    ∧ ((s6.run post).out "b").map (fun e => (e.1.id, e.2)) = [(1, true), (2, true), (3, false)]
+    ∧ ((s6.run post).n.uqueue "b").map (·.id) = [6] := by decide
+
+/-- `C08_fifo` on this history -/
+example := C08_fifo cfg cfg_wf hist "b"
+
+/-- the account of `b` at the end is the 2 payload bytes of datagram 6; after the truncating
+    hand-over of datagram 1 (5 bytes into a 2-byte buffer) the account was back to 0 -/
+example : ((s6.run post).n.udp? "b").map (fun u => (u.isOpen, u.queueSize, u.fwd)) = some (true, 2, some 2)
+    ∧ ((s6.run (post.take 3)).n.udp? "b").map (fun u => (u.queueSize, u.queue.length, u.recvH.isSome))
+        = some (0, 0, false)
+    ∧ ((s6.run (post.take 1)).n.udp? "b").map (fun u => (u.recvH.isSome, u.recvNull)) = some (true, false) := by
+  decide
+
+/-- what `send_to` forwarded: one packet, the five bytes, 28 bytes overhead, route
+    sender-out, receiver-in, `b`'s forwarder -/
+example : (fwdsOf ((s6.run (post.take 1)).n.udpSendTo 0 "a" epB [1, 2, 3, 4, 5]).2.1).map
+      (fun p => (p.hops, p.payload, p.len, p.ovh))
+    = [(["qout", "qin", "@1"], [1, 2, 3, 4, 5], 5, 28)] := by decide
+
+/-- the hypotheses of `C08_send_forward` hold there -/
+example := C08_send_forward cfg cfg_wf (pre1 ++ [.uBind "b" epB, .uBind "a" epA] ++ post.take 1) 0 "a"
+  { node := "A", isOpen := true, bound := epA, fwd := some 0 } epB [1, 2, 3, 4, 5] "b"
+  (by rw [hist_take_eq 1]; rfl) (by decide) (by decide) (by decide) (by decide) (by decide)
+  (by rw [hist_take_eq 1]; decide)
+
+/-- the hypotheses of `C08_parked_receive_gets_datagram` hold after the first two labels -/
+example := C08_parked_receive_gets_datagram cfg cfg_wf (pre1 ++ [.uBind "b" epB, .uBind "a" epA] ++ post.take 2) "b"
+  { node := "B", isOpen := true, bound := epB, fwd := some 1, recvH := some { h := 9, caps := [2], withEp := true } }
+  { h := 9, caps := [2], withEp := true } (pk 1 [1, 2, 3, 4, 5])
+  (by rw [hist_take_eq 2]; rfl) rfl (by decide)
+
+/-- the hypotheses of `C08_close_discards` hold before the close (one datagram unread) -/
+example := C08_close_discards cfg cfg_wf (pre1 ++ [.uBind "b" epB, .uBind "a" epA] ++ post.take 6) "b"
+  { node := "B", isOpen := true, bound := epB, fwd := some 1, queue := [pk 3 [8]], queueSize := 1 }
+  (.uClose "b") (by rw [hist_take_eq 6]; rfl) (Or.inl rfl)
+
+/-- the hypotheses of `C08_drained_reader_loses_nothing` hold after the re-open -/
+example := C08_drained_reader_loses_nothing cfg cfg_wf (pre1 ++ [.uBind "b" epB, .uBind "a" epA] ++ post.take 10) 2 "b"
+  { node := "B", isOpen := true, fwd := some 2 } (pk 6 [11, 12])
+  (by rw [hist_take_eq 10]; decide) (by rw [hist_take_eq 10]; rfl) rfl (by decide)
+
+/-- the hypotheses of `C08_right_socket_kept` hold (forwarder 0 reaches `a` throughout) -/
+example := C08_right_socket_kept cfg cfg_wf hist 0 "a"
+  { node := "A", isOpen := true, bound := epA, fwd := some 0, nextSend := 330 }
+  (by rw [hist_eq]; rfl) (by rw [hist_eq]; decide)
+
+end C08Ex
+
 end SimVerif
